@@ -152,7 +152,7 @@ PAUSE_RESUME = {"hb_promotion", "hb_pasha", "hb_cost_promotion", "synchb", "dehb
 
 
 def run(kind: str, seed: int, n_workers: int, started_budget: int, p_fail=0.0, p_ext=0.0, delete_checkpoints=False,
-        checkpointing=True, maxfail=3, async_sched=True, wait=False, early=None, sjwd=True):
+        checkpointing=True, maxfail=3, async_sched=True, wait=False, early=None, sjwd=True, mode="min"):
     """One real Tuner.run with a real scheduler; returns the TunerLoop trace."""
     import numpy as np
     from syne_tune import StoppingCriterion
@@ -161,7 +161,7 @@ def run(kind: str, seed: int, n_workers: int, started_budget: int, p_fail=0.0, p
     log = []
     backend = FreeRunningBackend(log, seed, p_fail=p_fail, p_ext=p_ext, checkpointing=checkpointing,
                                  delete_checkpoints=delete_checkpoints, max_fail=6, max_res_attr=MAXRES)
-    sched = make_scheduler(kind, seed, early=early)
+    sched = make_scheduler(kind, seed, mode=mode, early=early)
     conf = {"spec": early is not None, "nw": n_workers, "kind": "pause", "maxfail": maxfail, "async": async_sched, "wait": wait,
             "del": delete_checkpoints, "ckind": "started", "k": started_budget, "sjwd": sjwd}
     # the scheduler may declare trials as never-resumable (synchronous Hyperband): logged as Removable events
